@@ -33,6 +33,14 @@ SUBSCRIPTION = "InMemorySubscription"
 SNAPSHOT_FUNCS = {"list", "tuple", "sorted", "dict"}
 REMOVERS = {"pop", "popitem", "clear", "__delitem__"}
 INSERTERS = {"setdefault", "update", "__setitem__", "__getitem__"}
+STD_MATCHERS = ("fnmatch.fnmatch", "fnmatch.fnmatchcase")
+# local spellings of the matcher in the analysed module: the two standard names plus every alias the module
+# imports them under (``from fnmatch import fnmatch as matches``); filled per run, checked by C14-D3-pattern-identity
+_MATCHERS: Set[str] = {"fnmatch", "fnmatchcase"}
+
+
+def is_match_call(e: ast.AST) -> bool:
+    return isinstance(e, ast.Call) and call_attr(e) in _MATCHERS
 
 
 def _lock_names(e: ast.AST) -> List[str]:
@@ -430,29 +438,101 @@ def run(repo: Repo, R: Report) -> None:
         raise AnalysisError("shared channel map not found in InMemorySemantivaTransport.__init__")
     is_defaultdict = factory is not None
 
-    # alias in the subscription: attribute assigned from the constructor parameter
-    sinit = repo.func(F, f"{SUBSCRIPTION}.__init__")
+    # the methods are analysed in normal form (private helpers with a tail return inlined at their call, module
+    # constants substituted, if/else of one assignment merged); a helper absorbed at every call is analysed there,
+    # in the context (locks held, channel known) it really runs in
+    nmethods = _normal_methods(repo, mod, {TRANSPORT: tcls, SUBSCRIPTION: scls})
+
+    # local spellings of the standard matcher in this module
+    _MATCHERS.clear()
+    _MATCHERS.update({"fnmatch", "fnmatchcase"})
+    _MATCHERS.update(alias for alias, tgt in mod.imports.items() if tgt in STD_MATCHERS)
+
+    # alias in the subscription: attributes assigned from the constructor parameters (by position: map, pattern)
+    repo.func(F, f"{SUBSCRIPTION}.__init__")  # anchor
+    sinit = nmethods[SUBSCRIPTION]["__init__"]
     sparams = [a.arg for a in sinit.args.args]
+    if len(sparams) < 3:
+        raise AnalysisError("InMemorySubscription.__init__: (self, queue map, pattern) parameters not recognised")
+    sfl = _Flow(sinit)
     sub_map = None
-    sub_pattern = None
-    pattern_param = None
+    map_rebinds: List[Tuple[ast.AST, ast.AST]] = []
+    pattern_param = sparams[2]
+    # (attribute, store statement, what the stored value stands for, parameter it names | None, statements rebinding it)
+    pat_stores: List[Tuple[str, ast.AST, ast.AST, Optional[str], List[ast.AST]]] = []
     for st in walk_no_nested(sinit):
         s_tgt = st.targets[0] if isinstance(st, ast.Assign) and len(st.targets) == 1 else st.target if isinstance(st, ast.AnnAssign) else None
-        if s_tgt is not None and isinstance(st.value, ast.Name) and st.value.id in sparams:
-            d = dotted_name(s_tgt)
-            if d and d.startswith("self."):
-                idx = sparams.index(st.value.id)
-                if idx == 1:
-                    sub_map = d[5:]
-                elif idx == 2:
-                    sub_pattern = d[5:]
-                    pattern_param = st.value.id
+        if s_tgt is None or getattr(st, "value", None) is None:
+            continue
+        d = dotted_name(s_tgt)
+        if not (d and d.startswith("self.") and d.count(".") == 1):
+            continue
+        at = sfl.node_of(st)
+        pname, rebinds, shown = _entry_param(sfl, sinit, st.value, at)
+        if pname == sparams[1]:
+            sub_map = d[5:]
+            map_rebinds += [(st, rb) for rb in rebinds]
+        elif pname == pattern_param or (pname is None and _mentions(shown, pattern_param) and not _mentions(shown, sparams[1])):
+            pat_stores.append((d[5:], st, shown, pname, rebinds))
+    # the pattern attribute: the one that takes the pattern parameter itself; failing that (the constructor stores
+    # something computed from the parameter) the one the matcher is called with
+    direct = [p_ for p_ in pat_stores if p_[3] == pattern_param]
+    if not direct:
+        used = {x.attr for m_ in nmethods[SUBSCRIPTION].values() for c in ast.walk(m_) if is_match_call(c)
+                for a in c.args for x in ast.walk(a) if isinstance(x, ast.Attribute) and isinstance(x.value, ast.Name) and x.value.id == "self"}
+        direct = [p_ for p_ in pat_stores if p_[0] in used]
+    sub_pattern = direct[0][0] if direct and len({p_[0] for p_ in direct}) == 1 else None
     if sub_map is None or sub_pattern is None:
         raise AnalysisError("InMemorySubscription.__init__: queue map / pattern attributes not recognised")
+
+    # ---- the pattern matched is the pattern subscribed to --------------------------------------------------
+    r_pid = R.rule("C14-D3-pattern-identity", "the pattern a subscription matches channel names against is the caller's pattern unchanged: the attribute the routing test reads is written only by the constructor, from the entry value of its pattern parameter, and the matcher called is the standard library's fnmatch", 2)
+    for attr_, st, shown, pname, rebinds in pat_stores:
+        if attr_ != sub_pattern:
+            continue
+        if pname is None:
+            R.violation(r_pid, F, f"{SUBSCRIPTION}.__init__", norm(st), f"the stored pattern is computed (`{norm(shown)}`), not the pattern argument itself: the subscription matches channels against another pattern than the one subscribed to - matching messages are never delivered to it and messages of channels that do not match it are yielded", st.lineno)
+        elif rebinds:
+            rb = rebinds[0]
+            R.violation(r_pid, F, f"{SUBSCRIPTION}.__init__", norm(rb), f"the pattern argument `{pname}` is rewritten before it is stored in self.{attr_}: the subscription matches channels against another pattern than the one subscribed to - matching messages are never delivered to it and messages of channels that do not match it are yielded", getattr(rb, "lineno", st.lineno))
+        else:
+            R.ok(r_pid, F, f"{SUBSCRIPTION}.__init__", norm(st), "pattern argument stored unchanged", st.lineno)
+    # written nowhere else (methods in normal form: a setter inlined into the constructor was judged there)
+    scopes: List[Tuple[str, ast.AST, bool]] = [(f"{cn}.{k}", f_, cn == SUBSCRIPTION) for cn in nmethods for k, f_ in nmethods[cn].items()]
+    scopes += [(q, n, False) for q, n in mod.defs.items() if isinstance(n, FuncNode) and "." not in q]
+    for qn, f_, in_sub in scopes:
+        if f_ is sinit:
+            continue
+        for x in ast.walk(f_):
+            if isinstance(x, ast.Attribute) and x.attr == sub_pattern and isinstance(x.ctx, (ast.Store, ast.Del)):
+                recv_self = isinstance(x.value, ast.Name) and x.value.id == "self"
+                if in_sub or not recv_self:
+                    R.violation(r_pid, F, qn, norm(stmt(x)), f"the subscription's pattern attribute `{sub_pattern}` is rewritten after construction: from then on channels are matched against another pattern than the one subscribed to", x.lineno)
+    # the matcher is the standard library's: each spelling used in the subscription is bound by an import of
+    # fnmatch.fnmatch / fnmatch.fnmatchcase (or reached through the imported module) and by nothing else
+    seen_spellings: Set[str] = set()
+    for k, m_ in nmethods[SUBSCRIPTION].items():
+        for c in ast.walk(m_):
+            if not is_match_call(c):
+                continue
+            sp_ = dotted_name(c.func) or norm(c.func)
+            if sp_ in seen_spellings:
+                continue
+            seen_spellings.add(sp_)
+            head = sp_.split(".")[0]
+            if isinstance(c.func, ast.Name):
+                ok_b = mod.imports.get(head) in STD_MATCHERS
+            else:
+                ok_b = isinstance(c.func, ast.Attribute) and isinstance(c.func.value, ast.Name) and mod.imports.get(head) == "fnmatch"
+            other = _other_bindings(mod.tree, head)
+            R.check(bool(ok_b and not other), r_pid, F, f"{SUBSCRIPTION}.{k}", norm(c) + " [matcher]",
+                    f"`{sp_}` is not (only) the standard library's fnmatch here" + (f" (also bound by `{norm(other[0])[:80]}`)" if other else "") + ": channels are matched by other rules than the subscription pattern's", c.lineno)
 
     # ---- R4 alias -------------------------------------------------------------
     r_alias = R.rule("C14-D1-alias", "every subscription is constructed on the shared channel map itself (not a copy or a per-channel view) and with the caller's pattern", 1)
     n_ctor = 0
+    for st, rb in map_rebinds:
+        R.violation(r_alias, F, f"{SUBSCRIPTION}.__init__", norm(rb), f"the channel map handed to the subscription is replaced before it is stored (`{norm(st)}`): the subscription does not see the transport's live channel map", getattr(rb, "lineno", 0))
     for qn, fn in [(q, n) for q, n in mod.defs.items() if isinstance(n, FuncNode)]:
         for c in calls_in(fn):
             if call_attr(c) == SUBSCRIPTION:
@@ -465,15 +545,14 @@ def run(repo: Repo, R: Report) -> None:
                     vals = assigned_value(fn, a0.id) or [a0]
                 ok0 = bool(vals) and all(dotted_name(v) == f"self.{shared_map}" for v in vals)
                 R.check(ok0, r_alias, F, qn, norm(c), "subscription does not see the transport's live channel map: channels created later (or the entry a publisher uses) are invisible to it", c.lineno)
-                fparams = [a.arg for a in fn.args.args]
-                ok1 = isinstance(a1, ast.Name) and a1.id in fparams
-                if not ok1 and isinstance(a1, ast.Name):
-                    # a local naming the parameter (``pattern = channel``), still current at the call
+                # the parameter itself, or a local naming it (``pattern = channel``), still the caller's value at the call
+                ok1, rb1 = False, []
+                if isinstance(a1, ast.Name):
                     fl_ = _Flow(fn)
-                    at_ = fl_.node_of(c)
-                    rv = fl_.resolve(a1.id, at_) if at_ is not None else None
-                    ok1 = isinstance(rv, ast.Name) and rv.id in fparams
-                R.check(ok1, r_alias, F, qn, norm(c) + " [pattern]", "subscription pattern is not the caller's channel pattern unchanged", c.lineno)
+                    pn1, rb1, _shown = _entry_param(fl_, fn, a1, fl_.node_of(c))
+                    ok1 = pn1 is not None and pn1 != "self" and not rb1
+                R.check(ok1, r_alias, F, qn, norm(c) + " [pattern]", "subscription pattern is not the caller's channel pattern unchanged"
+                        + (f" (rewritten by `{norm(rb1[0])[:80]}`)" if rb1 else ""), c.lineno)
     if n_ctor == 0:
         raise AnalysisError("no construction of InMemorySubscription found")
 
@@ -482,10 +561,6 @@ def run(repo: Repo, R: Report) -> None:
     publish_append_locks: List[List[str]] = []
     removal_sites: List[Tuple[str, ast.AST]] = []
 
-    # the methods are analysed in normal form (private helpers with a tail return inlined at their call, module
-    # constants substituted, if/else of one assignment merged); a helper absorbed at every call is analysed there,
-    # in the context (locks held, channel known) it really runs in
-    nmethods = _normal_methods(repo, mod, {TRANSPORT: tcls, SUBSCRIPTION: scls})
     prov = {TRANSPORT: Prov(tcls, shared_map, nmethods[TRANSPORT]), SUBSCRIPTION: Prov(scls, sub_map, nmethods[SUBSCRIPTION])}
 
     def map_expr(e: ast.AST, cls_name: str, fn: Optional[ast.AST] = None) -> bool:
@@ -622,6 +697,33 @@ def run(repo: Repo, R: Report) -> None:
     ends_ok = (producer_ends, consumer_ends) in (({"right"}, {"left"}), ({"left"}, {"right"}))
     R.check(ends_ok, r_fifo, F, f"{TRANSPORT}.publish / {SUBSCRIPTION}.__iter__", f"producer ends {sorted(producer_ends)} / consumer ends {sorted(consumer_ends)}",
             "producer and consumer do not use opposite ends of the deque: messages of one channel are not received in publication order", 0)
+
+    # ---- a message is filed under the channel it was published to ------------------------------------
+    r_cid = R.rule("C14-D3-channel-identity", "a producer files the message in the queue of the channel name it was called with, unchanged (the key of the channel-map lookup in a public producer is the entry value of one of its parameters)", 0)
+    for qn, fn, qv, lv, kv in deque_bindings:
+        if not qn.startswith(TRANSPORT + ".") or (fn.name.startswith("_") and not fn.name.startswith("__")):
+            continue  # a private helper files under what its caller passes: decided at the public entry point only
+        if not any(isinstance(c, ast.Call) and isinstance(c.func, ast.Attribute) and isinstance(c.func.value, ast.Name) and c.func.value.id == qv
+                   and c.func.attr in ("append", "appendleft", "extend", "extendleft", "insert") for c in ast.walk(fn)):
+            continue
+        src = binding_src.get((id(fn), qv))
+        kexpr: Optional[ast.AST] = None
+        if isinstance(src, ast.Subscript) and map_expr(src.value, TRANSPORT, fn):
+            kexpr = src.slice
+        elif isinstance(src, ast.Call) and isinstance(src.func, ast.Attribute) and map_expr(src.func.value, TRANSPORT, fn) and src.args and src.func.attr in ("get", "setdefault", "__getitem__"):
+            kexpr = src.args[0]
+        elif src is not None and kv is not None:
+            kexpr = ast.Name(id=kv, ctx=ast.Load())
+        if kexpr is None or src is None:
+            continue
+        fl_ = _Flow(fn)
+        pn_, rb_, shown_ = _entry_param(fl_, fn, kexpr, fl_.node_of(stmt(src)))
+        if pn_ is None or pn_ == "self":
+            R.violation(r_cid, F, qn, norm(stmt(src)), f"the message is filed under `{norm(shown_)}`, a name computed in the producer, not the channel it was published to: a subscription whose pattern matches the published channel never receives it, and one that matches the computed name receives a message of a channel it did not subscribe to", getattr(src, "lineno", 0))
+        elif rb_:
+            R.violation(r_cid, F, qn, norm(rb_[0]), f"the channel argument `{pn_}` is rewritten before the queue lookup `{norm(stmt(src))}`: the message is filed under another channel than the one it was published to", getattr(rb_[0], "lineno", 0))
+        else:
+            R.ok(r_cid, F, qn, norm(stmt(src)), f"filed under parameter {pn_}", getattr(src, "lineno", 0))
 
     # ---- entry stability --------------------------------------------------------------
     r_stab = R.rule("C14-D1-entry-stability", "a channel's (deque, lock) entry is never removed or replaced while a publisher may have fetched it and not yet appended", 1)
@@ -856,14 +958,14 @@ class _Flow:
         if isinstance(e, ast.Name) and isinstance(e.ctx, ast.Load):
             v = self.resolve(e.id, use, depth)
             if v is not None and (isinstance(v, (ast.Name, ast.UnaryOp, ast.BoolOp, ast.Compare)) or dotted_name(v) is not None
-                                  or (isinstance(v, ast.Call) and call_attr(v) in ("fnmatch", "fnmatchcase", "bool"))):
+                                  or (isinstance(v, ast.Call) and (is_match_call(v) or call_attr(v) == "bool"))):
                 return v
             return e
         if isinstance(e, ast.UnaryOp) and isinstance(e.op, ast.Not):
             return ast.UnaryOp(op=e.op, operand=self.expand(e.operand, use, depth))
         if isinstance(e, ast.BoolOp):
             return ast.BoolOp(op=e.op, values=[self.expand(v, use, depth) for v in e.values])
-        if isinstance(e, ast.Call) and call_attr(e) in ("fnmatch", "fnmatchcase") and not e.keywords:
+        if is_match_call(e) and not e.keywords:
             return ast.Call(func=e.func, args=[self.expand(x, use, depth) for x in e.args], keywords=[])
         if isinstance(e, ast.Call) and isinstance(e.func, ast.Name) and e.func.id == "bool" and len(e.args) == 1 and not e.keywords:
             return self.expand(e.args[0], use, depth)
@@ -929,7 +1031,7 @@ class _HandOver:
         pat = f"self.{self.sub_pattern}"
 
         def route_atom(e: ast.AST) -> Optional[bool]:
-            if key is not None and isinstance(e, ast.Call) and call_attr(e) in ("fnmatch", "fnmatchcase") and len(e.args) == 2 and not e.keywords:
+            if key is not None and is_match_call(e) and len(e.args) == 2 and not e.keywords:
                 a, b = e.args
                 if isinstance(a, ast.Name) and a.id == key and dotted_name(b) == pat:
                     return True
@@ -1290,6 +1392,53 @@ def _guarded_creation(sub: ast.Subscript, lock: str, is_map) -> bool:
 def stmt(n: ast.AST) -> ast.AST:
     from ..engine import stmt_of
     return stmt_of(n)
+
+
+def _entry_param(fl: "_Flow", fn: ast.AST, e: ast.AST, use: Optional[int]) -> Tuple[Optional[str], List[ast.AST], ast.AST]:
+    """What expression *e* stands for at CFG node *use* of *fn*:
+    (parameter of *fn* it names - directly or through locals bound to it - | None,
+     statements that rebind that parameter and can run before *use* (empty = *e* is the caller's argument unchanged),
+     the expression after resolving locals, for messages)."""
+    a = fn.args
+    params = [x.arg for x in a.posonlyargs + a.args + a.kwonlyargs]
+    annotated_str = {x.arg for x in a.posonlyargs + a.args + a.kwonlyargs if isinstance(x.annotation, ast.Name) and x.annotation.id == "str"}
+
+    def unwrap(x: ast.AST) -> ast.AST:
+        # ``str(p)`` of a parameter declared ``p: str`` is p
+        while (isinstance(x, ast.Call) and isinstance(x.func, ast.Name) and x.func.id == "str" and len(x.args) == 1 and not x.keywords
+               and isinstance(x.args[0], ast.Name) and x.args[0].id in annotated_str):
+            x = x.args[0]
+        return x
+
+    shown = unwrap(e)
+    if isinstance(shown, ast.Name) and shown.id not in params and use is not None:
+        v = fl.resolve(shown.id, use)
+        if v is not None:
+            shown = unwrap(v)
+    if not (isinstance(shown, ast.Name) and shown.id in params) or use is None:
+        return None, [], shown
+    rebinds: List[ast.AST] = []
+    for d in fl.defs(shown.id):
+        starts = [t for t, _l in fl.g.succ[d]]
+        if use in starts or use in fl.g.reach(starts):
+            if fl.g.nodes[d].ast is not None:
+                rebinds.append(fl.g.nodes[d].ast)
+    return shown.id, rebinds, shown
+
+
+def _other_bindings(tree: ast.AST, name: str) -> List[ast.AST]:
+    """Binding sites of *name* anywhere in the module other than import statements."""
+    out: List[ast.AST] = []
+    for n in ast.walk(tree):
+        if isinstance(n, FuncNode + (ast.ClassDef,)) and n.name == name:
+            out.append(n)
+        elif isinstance(n, ast.Name) and n.id == name and isinstance(n.ctx, (ast.Store, ast.Del)):
+            out.append(stmt(n))
+        elif isinstance(n, ast.arg) and n.arg == name:
+            out.append(n)
+        elif isinstance(n, ast.ExceptHandler) and n.name == name:
+            out.append(n)
+    return out
 
 
 def _mentions(e: ast.AST, name: str) -> bool:
